@@ -97,19 +97,20 @@ def run_case(case):
         def add(self, **kw):
             self.adds.append(kw)
 
+    def config(name):
+        if name == "specialized":
+            return rt.SpecializedRayTracer, AntarcticIce()
+        if name == "basic":
+            return rt.BasicRayTracer, ArasimIce()
+        if name == "specialized-greenland":
+            return rt.SpecializedRayTracer, GreenlandIce()
+        if name == "uniform":
+            return (type("UTk", (rt.UniformRayTracer,), {"max_reflections": case["max_reflections"]}),
+                    UniformIce(1.6, valid_range=(-2850, 0), index_above=1, index_below=None))
+        return LayeredRayTracer, LayeredIce([AntarcticIce(valid_range=(-500, 0), index_above=1, index_below=None),
+                                             AntarcticIce(valid_range=(-2850, -500), index_above=None, index_below=None)])
     tr = case["tracer"]
-    if tr == "specialized":
-        tracer, ice = rt.SpecializedRayTracer, AntarcticIce()
-    elif tr == "basic":
-        tracer, ice = rt.BasicRayTracer, ArasimIce()
-    elif tr == "specialized-greenland":
-        tracer, ice = rt.SpecializedRayTracer, GreenlandIce()
-    elif tr == "uniform":
-        tracer = type("UTk", (rt.UniformRayTracer,), {"max_reflections": case["max_reflections"]})
-        ice = UniformIce(1.6, valid_range=(-2850, 0), index_above=1, index_below=None)
-    else:
-        tracer = LayeredRayTracer
-        ice = LayeredIce([AntarcticIce(valid_range=(-500, 0), index_above=1, index_below=None), AntarcticIce(valid_range=(-2850, -500), index_above=None, index_below=None)])
+    tracer, ice = config(tr)
     model = {"ARZ": ask.ARZAskaryanSignal, "AVZ": ask.AVZAskaryanSignal, "ZHS": ask.ZHSAskaryanSignal}[case["model"]]
     model_calls = []
 
@@ -138,8 +139,9 @@ def run_case(case):
             for k in range(int(rng.integers(1, 4))):
                 p = Particle(str(rng.choice(["nu_e", "nu_mu", "nu_tau_bar"])), (rng.uniform(-800, 800), rng.uniform(-800, 800), -rng.uniform(50, 2000)),
                              rng.normal(size=3), float(10 ** rng.uniform(6, 10)))
-                p.survival_weight = float(rng.choice([1.0, 0.5, 1e-3]))
-                p.interaction_weight = float(rng.choice([1.0, 1e-2, 1e-6]))
+                # weights include the configured minima themselves (0.4 / 1e-3 for the pair, 1e-4 for the product) and exactly 0
+                p.survival_weight = float(rng.choice([1.0, 0.5, 1e-3, 0.4, 1.0]))
+                p.interaction_weight = float(rng.choice([1.0, 1e-2, 1e-6, 1e-3, 1e-4, 0.0]))
                 parts.append(p)
             ev = Event(parts[0])
             if len(parts) > 1:
@@ -180,6 +182,17 @@ def run_case(case):
            "writer": case["writer"], "triggers": case["triggers"]}
     nrecv = noff = nskip = 0
     try:
+        if case["generator"] == "list" and case["salt"] % 2 == 0:
+            # another kernel with another medium / tracer, run first on the very same vertices and antenna positions, must leave no trace
+            other = [n_ for n_ in ("specialized", "basic", "specialized-greenland", "uniform", "layered") if n_ != tr][case["salt"] // 2 % 4]
+            tracer_o, ice_o = config(other)
+            decoy = EventKernel(ListGenerator(events), [Antenna(p_, noisy=False) for p_ in positions], ice_model=ice_o, ray_tracer=tracer_o, signal_model=model,
+                                signal_times=times, offcone_max=off, weight_min=wm_arg)
+            try:
+                decoy.event()
+            except Exception:       # noqa: BLE001 -- the decoy configuration is not what this case decides
+                pass
+            geo["run_after_a_kernel_with"] = other
         kern = EventKernel(generator, ants, ice_model=ice, ray_tracer=tracer, signal_model=RecModel, signal_times=times, event_writer=wr, triggers=triggers,
                            offcone_max=off, weight_min=wm_arg, attenuation_interpolation=ai)
         if isinstance(wr, RecWriter):
